@@ -356,3 +356,24 @@ Section EndToEnd.
     exists 0%nat. split; [lia|reflexivity].
   Qed.
 End EndToEnd.
+
+(* ---- C18: spacing and comments at the character level ---- *)
+Section Spacing.
+  Variable dirs ops regs flags : table.
+  Variable u_alnum u_ws : N -> bool.
+  Notation step := (step dirs ops regs flags u_alnum u_ws).
+
+  Lemma init_skips_space s c :
+    x_state s = LInit -> c <> 10 -> ws u_ws c = true -> step s c = (s, None).
+  Proof.
+    intros Hs Hc Hw. unfold Lexer.step. rewrite Hs.
+    destruct (N.eqb_spec c 10); [contradiction|]. rewrite Hw. reflexivity.
+  Qed.
+
+  Lemma comment_text_dropped s c :
+    x_state s = LComment -> c <> 10 -> step s c = (s, None).
+  Proof.
+    intros Hs Hc. unfold Lexer.step. rewrite Hs.
+    destruct (N.eqb_spec c 10); [contradiction|]. reflexivity.
+  Qed.
+End Spacing.
